@@ -110,6 +110,15 @@ func genC15(t *rapid.T) *C15Case {
 		b := a + rapid.IntRange(-1, 1).Draw(t, "delta")
 		c.Arg = strconv.Itoa(a)
 		c.Input = []byte(strconv.Itoa(b))
+		if rapid.IntRange(0, 3).Draw(t, "bignum") == 0 {
+			// operands at and beyond the ends of the integer range, and other spellings of numbers
+			big := []string{"9223372036854775807", "9223372036854775808", "9223372036854775806", "9999999999999999999", "-9223372036854775808", "-9223372036854775809",
+				"18446744073709551616", "99999999999999999999", "1000000000000000000", "0009", "+5", "-0", "1048576"}
+			c.Input = []byte(rapid.SampledFrom(big).Draw(t, "bigin"))
+			if rapid.Bool().Draw(t, "bigarg") {
+				c.Arg = rapid.SampledFrom(big).Draw(t, "bigargv")
+			}
+		}
 		c.Macro = rapid.Bool().Draw(t, "macro")
 	case "pm":
 		c.Form = rapid.SampledFrom([]string{"pm", "pm", "pmFromDataset", "pmFromFile"}).Draw(t, "form")
